@@ -227,8 +227,12 @@ func (w *World) RandomOp(o HistOpts) {
 			w.Tip(w.user(), "qmode", int64(1_000_000+w.pick(3_000_000)))
 			k := 2 * (1 + w.pick(2))
 			off := w.pick(len(w.Users))
+			// the two candidate values: different numbers, or two accepted spellings of one number
+			a := hex32(0xabcdef)
+			pairs := [][2]string{{hex32(1), hex32(2)}, {a, "0x" + a}, {a, strings.ToUpper(a)}, {"0X" + a, "0x" + a}, {hex32(2), hex32(1)}}
+			pr := pairs[w.pick(len(pairs))]
 			for i := 0; i < k; i++ {
-				w.Submit(w.Users[(off+i)%len(w.Users)], "qmode", hex32(uint64(1+i%2)))
+				w.Submit(w.Users[(off+i)%len(w.Users)], "qmode", pr[i%2])
 			}
 			return
 		}
@@ -298,7 +302,14 @@ func (w *World) RandomOp(o HistOpts) {
 			spec := registrytypes.GenesisDataSpec()
 			spec.ReportBlockWindow = uint64(1 + w.pick(4))
 			spec.Registrar = ""
-			w.RegisterSpec(w.anyActor(), []string{"spotprice", "newtype", "trbbridge"}[w.pick(3)], spec)
+			types := []string{"spotprice", "newtype", "trbbridge"}
+			if o.Boundary {
+				types = append(types, "SpotPrice", " spotprice", "spotprice ", "\tSpotPrice\n", "TRBBridge ", "newtype ", "")
+			}
+			if w.pick(2) == 0 {
+				spec.AggregationMethod = "weighted-mode"
+			}
+			w.RegisterSpec(w.anyActor(), types[w.pick(len(types))], spec)
 		}},
 	}
 	if o.ValStatus && len(w.Vals) > 1 {
@@ -620,6 +631,71 @@ func (w *World) DisputeStory(o HistOpts) {
 	}
 }
 
+// SelectorStory: a selector's stake follows it through reporters: A reports with it, the selector
+// switches to B and then to C (B may or may not have reported), C reports; unjail attempts around.
+func (w *World) SelectorStory(o HistOpts) {
+	reps := w.reporters()
+	if len(reps) < 2 {
+		// make more reporters out of users that are not selectors yet
+		for _, u := range w.Users {
+			w.block(o, 2*time.Second, func() { w.Delegate(u, w.val(), 5_000_000) }, func() { w.CreateReporter(u, sdkmath.LegacyZeroDec(), 1_000_000) })
+			if len(w.reporters()) >= 3 {
+				break
+			}
+		}
+		reps = w.reporters()
+	}
+	if len(reps) < 2 {
+		return
+	}
+	var sel *Actor
+	for _, u := range w.Actors {
+		if s, err := w.App.ReporterKeeper.Selectors.Get(w.Ctx, u.Addr.Bytes()); err == nil && string(s.Reporter) != string(u.Addr.Bytes()) {
+			sel = u
+			break
+		}
+	}
+	if sel == nil {
+		cand := w.AddActor(fmt.Sprintf("s%d", len(w.Actors)), 2_000_000_000)
+		sel = cand
+		w.block(o, 2*time.Second, func() { w.Delegate(sel, w.val(), int64(50_000_000+w.pick(50_000_000))) }, func() { w.SelectReporter(sel, reps[0]) })
+	}
+	s0, err := w.App.ReporterKeeper.Selectors.Get(w.Ctx, sel.Addr.Bytes())
+	if err != nil {
+		return
+	}
+	var cur *Actor
+	var others []*Actor
+	for _, r := range reps {
+		if string(r.Addr.Bytes()) == string(s0.Reporter) {
+			cur = r
+		} else {
+			others = append(others, r)
+		}
+	}
+	if cur == nil || len(others) == 0 {
+		return
+	}
+	q := func() string { return w.currentCycleQuery() }
+	w.block(o, 2*time.Second, func() { w.Submit(cur, q(), hex32(1000)) })
+	b := others[0]
+	w.block(o, 3*time.Second, func() { w.SwitchReporter(sel, b) })
+	if w.pick(2) == 0 {
+		w.block(o, 2*time.Second, func() { w.Submit(b, q(), hex32(1001)) })
+	}
+	c := cur
+	if len(others) > 1 {
+		c = others[1]
+	}
+	w.block(o, 3*time.Second, func() { w.SwitchReporter(sel, c) })
+	w.block(o, 2*time.Second, func() { w.Submit(c, q(), hex32(1002)) })
+	w.block(o, 2*time.Second, func() { w.Submit(c, q(), hex32(1003)) }, func() { w.Submit(cur, q(), hex32(1003)) })
+	if w.pick(2) == 0 {
+		w.block(o, 22*24*time.Hour)
+		w.block(o, 2*time.Second, func() { w.Submit(c, q(), hex32(1004)) })
+	}
+}
+
 // RunHistory = bootstrap + Blocks random blocks (+ dispute stories).
 func (w *World) RunHistory(o HistOpts) {
 	w.Bootstrap(o)
@@ -628,6 +704,10 @@ func (w *World) RunHistory(o HistOpts) {
 		storyAt = 2 + w.pick(o.Blocks/2+1)
 	}
 	for b := 0; b < o.Blocks && !w.Halted; b++ {
+		if b == storyAt && w.pick(3) == 0 {
+			w.SelectorStory(o)
+			continue
+		}
 		if b == storyAt {
 			w.DisputeStory(o)
 			if w.pick(3) == 0 {
